@@ -922,24 +922,61 @@ def _sccs(nodes: set[str], cg: dict[str, set[str]]) -> list[list[str]]:
     return out
 
 
+def _cap_test(cfg: CFG, n, fn: ast.AST, cap_names: set[str]) -> str | None:
+    """n is a test `<depth> >= CAP` / `> CAP` whose true edge raises ParserError, or `<depth> < CAP` / `<= CAP` whose false edge
+    does: the name of the counter attribute that is tested (`self.X`, directly or through a local bound once to it), '?' when
+    the tested thing is something else"""
+    if n.kind != "test" or n.ast is None:
+        return None
+    t, neg = n.ast, False
+    while isinstance(t, ast.UnaryOp) and isinstance(t.op, ast.Not):
+        t, neg = t.operand, not neg
+    if not (isinstance(t, ast.Compare) and len(t.ops) == 1 and isinstance(t.comparators[0], ast.Name) and t.comparators[0].id in cap_names):
+        return None
+    if isinstance(t.ops[0], (ast.GtE, ast.Gt)):
+        edge = "f" if neg else "t"
+    elif isinstance(t.ops[0], (ast.Lt, ast.LtE)):
+        edge = "t" if neg else "f"
+    else:
+        return None
+    succ = [s_ for s_, lab in cfg.succ[n.id] if lab == edge]
+    if not (succ and all(isinstance(cfg.nodes[s_].ast, ast.Raise) and "ParserError" in ast.unparse(cfg.nodes[s_].ast) for s_ in succ)):
+        return None
+    left = t.left
+    if isinstance(left, ast.Name):
+        ds = [a_.value for a_ in walk_no_nested(fn) if isinstance(a_, ast.Assign) and len(a_.targets) == 1 and isinstance(a_.targets[0], ast.Name) and a_.targets[0].id == left.id]
+        if len(ds) == 1:
+            left = ds[0]
+    if isinstance(left, ast.Attribute) and isinstance(left.value, ast.Name) and left.value.id == "self":
+        return left.attr
+    return "?"
+
+
+def _increments(fn: ast.AST, attr: str) -> bool:
+    return any(isinstance(a_, ast.AugAssign) and isinstance(a_.op, ast.Add) and isinstance(a_.target, ast.Attribute) and isinstance(a_.target.value, ast.Name) and a_.target.value.id == "self" and a_.target.attr == attr and isinstance(a_.value, ast.Constant) and isinstance(a_.value.value, int) and a_.value.value >= 1 for a_ in walk_no_nested(fn))
+
+
 def _cap_guard(run: Run, res: Resolver, fi: FuncInfo, scc: set[str], cap_names: set[str]) -> str | None:
-    """fi refuses depth >= cap with ParserError before every call it makes into the SCC"""
+    """fi refuses depth >= cap with ParserError before every call it makes into the SCC - and the depth it tests is the counter
+    that fi itself increments for the level it is about to open (a test of another counter bounds nothing here)"""
     cfg = CFG(fi.node)
     guards: list[int] = []
     for n in cfg.nodes:
         if n.ast is None:
             continue
         # (a) direct: `if <depth> >= MAX: raise ParserError`   (b) a call to a method that does (a) unconditionally
-        if n.kind == "test" and isinstance(n.ast, ast.Compare) and len(n.ast.ops) == 1 and isinstance(n.ast.ops[0], (ast.GtE, ast.Gt)) and isinstance(n.ast.comparators[0], ast.Name) and n.ast.comparators[0].id in cap_names:
-            tsucc = [s for s, lab in cfg.succ[n.id] if lab == "t"]
-            if tsucc and all(isinstance(cfg.nodes[s].ast, ast.Raise) and "ParserError" in ast.unparse(cfg.nodes[s].ast) for s in tsucc):
+        x = _cap_test(cfg, n, fi.node, cap_names)
+        if x is not None:
+            if x != "?" and _increments(fi.node, x):
                 guards.append(n.id)
         elif n.kind == "stmt":
             for c in walk_no_nested(n.ast):
                 if isinstance(c, ast.Call):
                     for cal in res.resolve_call(fi, c):
-                        if cal.kind == "repo" and cal.func is not None and cal.func.fqn not in scc and cal.func is not fi and _cap_guard_leaf(res, cal.func, cap_names):
-                            guards.append(n.id)
+                        if cal.kind == "repo" and cal.func is not None and cal.func.fqn not in scc and cal.func is not fi:
+                            x2 = _cap_guard_leaf(res, cal.func, cap_names)
+                            if x2 and x2 != "?" and _increments(fi.node, x2):
+                                guards.append(n.id)
     if not guards:
         return None
     # every call into the SCC is dominated by a guard
@@ -954,16 +991,16 @@ def _cap_guard(run: Run, res: Resolver, fi: FuncInfo, scc: set[str], cap_names: 
     return f"depth check against {'/'.join(sorted(cap_names))} dominates every recursive call"
 
 
-def _cap_guard_leaf(res: Resolver, fi: FuncInfo, cap_names: set[str]) -> bool:
+def _cap_guard_leaf(res: Resolver, fi: FuncInfo, cap_names: set[str]) -> str | None:
+    """the counter attribute a helper tests against the cap on every path from its entry (None: it has no such test)"""
     cfg = CFG(fi.node)
     for n in cfg.nodes:
-        if n.kind == "test" and isinstance(n.ast, ast.Compare) and len(n.ast.ops) == 1 and isinstance(n.ast.ops[0], (ast.GtE, ast.Gt)) and isinstance(n.ast.comparators[0], ast.Name) and n.ast.comparators[0].id in cap_names:
-            tsucc = [s for s, lab in cfg.succ[n.id] if lab == "t"]
-            if tsucc and all(isinstance(cfg.nodes[s].ast, ast.Raise) and "ParserError" in ast.unparse(cfg.nodes[s].ast) for s in tsucc):
-                # the test is reached on every path from entry (dominates the exit)
-                if cfg.dominated_by(cfg.exit, n.id) or all(cfg.dominated_by(x.id, n.id) for x in cfg.nodes if isinstance(x.ast, ast.Return)):
-                    return True
-    return False
+        x = _cap_test(cfg, n, fi.node, cap_names)
+        if x is not None:
+            # the test is reached on every path from entry (dominates the exit)
+            if cfg.dominated_by(cfg.exit, n.id) or all(cfg.dominated_by(x_.id, n.id) for x_ in cfg.nodes if isinstance(x_.ast, ast.Return)):
+                return x
+    return None
 
 
 def _structural_descent(fi: FuncInfo, call: ast.Call) -> bool:
